@@ -2,7 +2,7 @@
 From Coq Require Import List ZArith Bool.
 From Pico Require Import Base.Res Base.Mach Wire.Wire Schema.Types Schema.Scalar Ref.Ref
   Schema.ScalarProofs Dec.Dec Dec.ReaderProofs Wire.VarintProofs Wire.WireProofs
-  Schema.Gen Schema.Interp Dec.LoopEquiv Dec.LoopInst Schema.DecFlat Dec.SafetyProofs Dec.TokenBridge Schema.DecOps Schema.TDec Schema.Concat Schema.Rewrites gen.Schemas.
+  Schema.Gen Schema.Interp Dec.LoopEquiv Dec.LoopInst Schema.DecFlat Dec.SafetyProofs Dec.TokenBridge Dec.StreamLoop Schema.DecOps Schema.TDec Schema.Concat Schema.Rewrites Schema.EncSpec Schema.Packed gen.Schemas.
 Import ListNotations.
 Open Scope Z_scope.
 
@@ -84,8 +84,10 @@ Proof. exact T_dec_at. Qed.
    - two adjacent records of different fields outside oneofs, or a known and an unknown record, can be exchanged
      anywhere in the input (iterated: every reordering that keeps each field's own records in order);
    - a singular sub-message split into several occurrences is the concatenation of the occurrences (merge);
-   packed / unpacked / mixed repeated scalars and non-minimal varints are part of T_dec itself: the decoder is the
-   reference decoder on each such input, whose tokens carry VALUES, not spellings. *)
+   - the packed record of a repeated scalar/enum field equals one record per element, and a packed record may be cut
+     into several packed records (mixed forms follow by iterating the two);
+   - a record re-spelt with redundant varint groups (tag and value) is the same record;
+   - any run of complete records may be replaced by a run with the same effect on every target (the general principle). *)
 Theorem C02_exchange_records_reference : forall g s idx m a r1 r2 c ta t1 t2 x, nth_error s idx = Some m ->
   bytes_ok a -> bytes_ok r1 -> bytes_ok r2 -> tokens a = Some ta -> tokens r1 = Some [t1] -> tokens r2 = Some [t2] ->
   commuting s m t1 t2 ->
@@ -102,6 +104,55 @@ Proof. exact unmarshal_exchange. Qed.
 Theorem C02_split_submessage : forall g s idx p1 p2 x y, bytes_ok p1 -> ref_decode g s idx p1 x = Some y ->
   ref_decode g s idx (p1 ++ p2) x = ref_decode g s idx p2 y.
 Proof. exact split_submessage_merges. Qed.
+
+Theorem C02_replace_records : forall g s idx m a X1 X2 c ta ts1 ts2 x, nth_error s idx = Some m ->
+  bytes_ok a -> bytes_ok X1 -> bytes_ok X2 -> tokens a = Some ta -> tokens X1 = Some ts1 -> tokens X2 = Some ts2 ->
+  (forall o, fold_opt (apply_token s (ref_decode g s) m) ts1 o = fold_opt (apply_token s (ref_decode g s) m) ts2 o) ->
+  ref_decode (S g) s idx (a ++ X1 ++ c) x = ref_decode (S g) s idx (a ++ X2 ++ c) x.
+Proof. exact ref_decode_middle. Qed.
+Theorem C02_packed_unpacked_reference : forall s g idx m, nth_error s idx = Some m -> NoDup (map fnum (mfields m)) ->
+  forall k slot f, In (slot, f) (number_from 0 (mfields m)) -> f_custom f = CNone -> (fty f = TScalar k \/ (fty f = TEnum /\ k = KInt32)) ->
+  i_repeated (field_info s f) = true -> foneof f = None -> valid_number (fnum f) = true -> is_bytes_kind k = false ->
+  forall a c ta l x, bytes_ok a -> tokens a = Some ta ->
+  forallb (scalar_ok k) l = true -> lenb (flat_map (spec_payload k) l) = true -> l <> [] ->
+  ref_decode (S g) s idx (a ++ spec_ld (fnum f) (flat_map (spec_payload k) l) ++ c) x =
+  ref_decode (S g) s idx (a ++ flat_map (spec_field k (fnum f)) l ++ c) x.
+Proof. exact packed_unpacked_same. Qed.
+Theorem C02_packed_unpacked_unmarshal : forall s progs idx m k slot f a c ta l t0,
+  gen_all s = GOk progs -> tdec_applies_at s idx = true -> nth_error s idx = Some m -> NoDup (map fnum (mfields m)) ->
+  In (slot, f) (number_from 0 (mfields m)) -> f_custom f = CNone -> (fty f = TScalar k \/ (fty f = TEnum /\ k = KInt32)) ->
+  i_repeated (field_info s f) = true -> foneof f = None -> valid_number (fnum f) = true -> is_bytes_kind k = false ->
+  bytes_ok a -> bytes_ok c -> tokens a = Some ta ->
+  forallb (scalar_ok k) l = true -> lenb (flat_map (spec_payload k) l) = true -> l <> [] ->
+  same_outcome (pico_unmarshal progs idx (a ++ spec_ld (fnum f) (flat_map (spec_payload k) l) ++ c) t0)
+               (pico_unmarshal progs idx (a ++ flat_map (spec_field k (fnum f)) l ++ c) t0).
+Proof. exact unmarshal_packed_unpacked. Qed.
+Theorem C02_packed_split : forall s g idx m, nth_error s idx = Some m -> NoDup (map fnum (mfields m)) ->
+  forall k slot f, In (slot, f) (number_from 0 (mfields m)) -> f_custom f = CNone -> (fty f = TScalar k \/ (fty f = TEnum /\ k = KInt32)) ->
+  i_repeated (field_info s f) = true -> foneof f = None -> valid_number (fnum f) = true -> is_bytes_kind k = false ->
+  forall a c ta l1 l2 x, bytes_ok a -> tokens a = Some ta ->
+  forallb (scalar_ok k) l1 = true -> forallb (scalar_ok k) l2 = true -> l1 <> [] -> l2 <> [] ->
+  lenb (flat_map (spec_payload k) (l1 ++ l2)) = true -> lenb (flat_map (spec_payload k) l1) = true -> lenb (flat_map (spec_payload k) l2) = true ->
+  ref_decode (S g) s idx (a ++ spec_ld (fnum f) (flat_map (spec_payload k) (l1 ++ l2)) ++ c) x =
+  ref_decode (S g) s idx (a ++ (spec_ld (fnum f) (flat_map (spec_payload k) l1) ++ spec_ld (fnum f) (flat_map (spec_payload k) l2)) ++ c) x.
+Proof. exact packed_split. Qed.
+Theorem C02_same_meaning_records : forall g s idx m a r1 r2 c ta t1 t2 x, nth_error s idx = Some m ->
+  bytes_ok a -> bytes_ok r1 -> bytes_ok r2 -> tokens a = Some ta -> tokens r1 = Some [t1] -> tokens r2 = Some [t2] ->
+  t_num t1 = t_num t2 -> t_wt t1 = t_wt t2 -> t_pay t1 = t_pay t2 -> (find_field m (t_num t1) <> None \/ m_capture m = false) ->
+  ref_decode (S g) s idx (a ++ r1 ++ c) x = ref_decode (S g) s idx (a ++ r2 ++ c) x.
+Proof. exact same_meaning_records. Qed.
+Theorem C02_nonminimal_varint : forall g s idx m a c ta num v kt kv kt' kv' x, nth_error s idx = Some m -> bytes_ok a -> tokens a = Some ta ->
+  valid_number num = true -> 0 <= v -> v < 2 ^ 64 ->
+  (1 <= kt <= 10)%nat -> num * 8 < 128 ^ Z.of_nat kt -> (1 <= kv <= 10)%nat -> v < 128 ^ Z.of_nat kv ->
+  (1 <= kt' <= 10)%nat -> num * 8 < 128 ^ Z.of_nat kt' -> (1 <= kv' <= 10)%nat -> v < 128 ^ Z.of_nat kv' ->
+  (find_field m num <> None \/ m_capture m = false) ->
+  ref_decode (S g) s idx (a ++ (wide kt (num * 8) ++ wide kv v) ++ c) x =
+  ref_decode (S g) s idx (a ++ (wide kt' (num * 8) ++ wide kv' v) ++ c) x.
+Proof. exact nonminimal_varint_same. Qed.
+(* the k-group spelling with the minimal k is the reference encoder's, and wider spellings are different bytes *)
+Example C02_wide_examples : wide 1 1 = spec_varint 1 /\ wide 2 300 = spec_varint 300 /\ wide 3 1 = [129; 128; 0] /\ wide 10 1 <> spec_varint 1 /\
+  spec_parse_varint (wide 10 1) = Some (1, 10%nat) /\ spec_parse_varint (wide 5 300 ++ [7]) = Some (300, 5%nat).
+Proof. vm_compute. repeat split; try reflexivity. discriminate. Qed.
 
 (* the side condition holds for 32 of the 35 checked-in message types (three types of test.proto use, or contain,
    custom types whose codecs are user code) *)
@@ -128,3 +179,9 @@ Print Assumptions C02_unmarshal_is_reference_decoder.
 Print Assumptions C02_exchange_records_reference.
 Print Assumptions C02_exchange_records_unmarshal.
 Print Assumptions C02_split_submessage.
+Print Assumptions C02_replace_records.
+Print Assumptions C02_packed_unpacked_reference.
+Print Assumptions C02_packed_unpacked_unmarshal.
+Print Assumptions C02_packed_split.
+Print Assumptions C02_same_meaning_records.
+Print Assumptions C02_nonminimal_varint.
